@@ -805,8 +805,9 @@ pub fn gen_custom_font(rng: &mut Rng) -> CustomFontD {
         ch,
         spacing: if rng.chance(1, 3) { 0 } else { rng.u32r(1, 3) },
         baseline: rng.u32r(0, ch - 1),
-        underline: (rng.u32r(0, ch + 2), rng.u32r(1, 2)),
-        strike: (rng.u32r(0, ch - 1), 1),
+        // decoration heights 1..=3 (every built-in font uses 1)
+        underline: (rng.u32r(0, ch + 2), rng.u32r(1, 3)),
+        strike: (rng.u32r(0, ch - 1), rng.u32r(1, 3)),
         mapping,
         replacement: rng.usizer(0, glyphs as usize - 1),
         glyph_chars,
